@@ -32,13 +32,16 @@ Target(node, deg, c) == IF deg.has THEN Level(deg, c) ELSE Level(node, c)
 \*     min(target + per-channel offset, input power - path loss)
 RoadmOut(node, deg, c) == MinI(Target(node, deg, c) + c.offset, c.in - c.maxloss)
 
-\* --- clauses on one observed crossing x = [node, deg, ch |-> <<[baudDb, slotDb, offset, in, maxloss, out]>>] -------
+\* --- clauses on one observed crossing x = [node, deg, ch |-> <<[baudDb, slotDb, offset, in, maxloss, out, lossRep, poutRep]>>]
 RoadmEqualises(x, tol)     == \A i \in 1..Len(x.ch) : Within(x.ch[i].out, RoadmOut(x.node, x.deg, x.ch[i]), tol)
 RoadmNeverAmplifies(x, tol) == \A i \in 1..Len(x.ch) : x.ch[i].out <= x.ch[i].in + tol
 \* the two halves of the law, stated separately (they name what went wrong in a verdict)
 RoadmNotAboveTarget(x, tol) == \A i \in 1..Len(x.ch) :
                                   x.ch[i].out <= Target(x.node, x.deg, x.ch[i]) + x.ch[i].offset + tol
 RoadmLossApplied(x, tol)    == \A i \in 1..Len(x.ch) : x.ch[i].out <= x.ch[i].in - x.ch[i].maxloss + tol
+\* what the element reports about the crossing (Roadm.loss_pch_db, Roadm.pch_out_dbm) is what happened
+RoadmReported(x, tol)       == \A i \in 1..Len(x.ch) : /\ Within(x.ch[i].lossRep, x.ch[i].in - x.ch[i].out, tol)
+                                                         /\ Within(x.ch[i].poutRep, x.ch[i].out, tol)
 
 \* --- exactly one node-level policy is in force ------------------------------------------------------------------
 \* lib / elt: the sets of node-level policy kinds written in the equipment-library entry / in the element itself.
